@@ -194,6 +194,33 @@ def _outcome(parser, s):
         return f"<{type(e).__name__}>"
 
 
+def parser_copies_problems():
+    """Native (ground): a deep copy / pickle round trip / shallow copy of a configured (and used) parser parses every 3-token
+    stream like a fresh parser with the same configuration."""
+    import copy
+    import itertools
+    import pickle
+
+    out = []
+    for fi, ii in itertools.product(range(8), (True, False)):
+        flags = set(f.lower() for f in FLAGSETS[fi])
+        used = DefaultFormulaParser(include_intercept=ii, feature_flags=flags)
+        _outcome(used, "y ~ a | b")
+        copies = {"deepcopy": copy.deepcopy(used), "pickle": pickle.loads(pickle.dumps(used)), "copy": copy.copy(used),
+                  "deepcopy of an unused parser": copy.deepcopy(DefaultFormulaParser(include_intercept=ii, feature_flags=flags))}
+        fresh = DefaultFormulaParser(include_intercept=ii, feature_flags=flags)
+        for ks in itertools.product(range(7), repeat=3):
+            s = " ".join(FLAG_ALPHA[k] for k in ks)
+            want = _outcome(fresh, s)
+            for how, q in copies.items():
+                if _outcome(q, s) != want:
+                    out.append((s, f"a {how} of a parser with flags {FLAGSETS[fi]} (include_intercept={ii}) parses {s!r} differently from a fresh parser with that configuration"))
+                    break
+            if len(out) >= 5:
+                return out
+    return out
+
+
 def flag_switch(f1: int, f2: int, w: int, k0: int, k1: int, k2: int) -> bool:
     """
     pre: 0 <= f1 < 8 and 0 <= f2 < 8 and 0 <= w < __WN__ and 0 <= k0 < __M2__ and 0 <= k1 < __M2__ and 0 <= k2 < __M2__ and f2 == __SHARD__ and f1 == __F1__
